@@ -237,7 +237,9 @@ class SelectIgnoreInterrupts(Contract):
 
     def ensures(self, v):
         if v.raised is not None:
-            return [('env', getattr(v, 'envc', True))]
+            if getattr(v, 'envc', None) is not None:
+                return [('env', v.envc), ('time-forward', v.dt >= 0)]
+            return [('C05:time-forward', v.g['clk'] >= v.g0['clk'])]
         if getattr(v, 'label', None) is not None:
             ready = v.label == 'ready'
             return [('env', v.envc)] + wait_post(v, ready) + ([('nothing-to-read', Not(readable(v.g)))] if not ready else [])
@@ -270,7 +272,9 @@ class PollIgnoreInterrupts(SelectIgnoreInterrupts):
 
     def ensures(self, v):
         if v.raised is not None:
-            return [('env', getattr(v, 'envc', True))]
+            if getattr(v, 'envc', None) is not None:
+                return [('env', v.envc), ('time-forward', v.dt >= 0)]
+            return [('C05:time-forward', v.g['clk'] >= v.g0['clk'])]
         if getattr(v, 'label', None) is not None:
             ready = v.label == 'ready'
             return [('env', v.envc)] + wait_post(v, ready) + ([('nothing-to-read', Not(readable(v.g)))] if not ready else [])
@@ -386,8 +390,8 @@ class FdReadBase(Contract):
 
     def modifies(self, v, out):
         sp = v.old.self
-        if out.label == 'EOF' and sp._cls != PTY:
-            return [(sp, 'flag_eof', T.Bool)]
+        if out.label == 'EOF':
+            return [(sp.ptyproc, 'flag_eof', T.Bool)] if sp._cls == PTY else [(sp, 'flag_eof', T.Bool)]
         return []
 
     def effects(self, v):
@@ -410,6 +414,9 @@ class FdReadBase(Contract):
     def ensures(self, v):
         sp = v.old.self
         out = read_common_post(v, sp)
+        if v.raised == 'EOF':
+            new = v.new.self
+            out.append(('C04:eof-remembered', eq(new.ptyproc.flag_eof if sp._cls == PTY else new.flag_eof, True)))
         if getattr(v, 'label', None) is not None:
             out.append(('kernel', v.cons))
             if v.label == 'data' and sp.encoding is not None:
@@ -466,7 +473,7 @@ class PtyReadLoop(LoopSpec):
         inc = v.l.incoming
         out = [('peer-state', And(0 <= v.g['peer'], v.g['peer'] <= 2)),
                ('took-in-order', prefix_of(v.g0['rawin'], v.g['rawin'])),
-               ('clock-forward', v.g['clk'] >= v.g0['clk']),
+               ('no-time-passes-while-draining', eq(v.g['clk'], v.g0['clk'])),
                ('collected-is-what-was-taken', eq(inc, text_delivered(v, sp))),
                ('never-more-than-asked', length(inc) <= v.old.size),
                ('ptyprocess-invariant', PINV(v.l.self.ptyproc, v.g)), ('status-invariant', STAT(v.l.self, v.g)),
@@ -489,7 +496,7 @@ class PtyReadLoop(LoopSpec):
 
 class PtyRead(Contract):
     name = PTY + '.read_nonblocking'
-    props = ('C06', 'C07', 'C11', 'C10')
+    props = ('C05', 'C06', 'C07', 'C11', 'C10')
     loops = {0: PtyReadLoop()}
     standin = False
 
@@ -523,7 +530,69 @@ class PtyRead(Contract):
         if v.raised == 'ValueError':
             return [('C10:closed-object-refuses-io', And(sp.closed, eq(v.g['rawin'], v.g0['rawin'])))]
         out.append(('C10:open-object', Not(sp.closed)))
-        return out + read_common_post(v, sp)
+        return out + read_common_post(v, sp) + deadline_post(v, eff_timeout(v))
+
+
+# ---- fdspawn.read_nonblocking ------------------------------------------------------------------------------------
+def timeout_arg(b):
+    t = b.choice('timeout', ['default', 'none', 'some'])
+    return b.const(-1) if t == 'default' else (b.none() if t == 'none' else b.real('timeout'))
+
+
+def eff_timeout(v):
+    t = v.old.timeout
+    if isinstance(t, int) and t == -1:
+        return v.old.self.timeout
+    if is_sym(t):
+        import z3
+        z = z3.simplify(t)
+        if z3.is_int_value(z) and z.as_long() == -1:
+            return v.old.self.timeout
+    return t
+
+
+def deadline_post(v, T0):
+    """C05 at the transport: bounded by the timeout, TIMEOUT only after it has elapsed"""
+    dt = v.g['clk'] - v.g0['clk']
+    out = [('C05:time-forward', dt >= 0)]
+    if v.raised == 'TIMEOUT':
+        out.append(('C05:timeout-only-with-a-finite-timeout-that-elapsed', False if T0 is None else dt >= T0))
+    if T0 is not None and v.raised in (None, 'TIMEOUT'):
+        out.append(('C05:bounded-by-the-timeout', dt <= smax(T0, 0)))
+    return out
+
+
+class FdRead(Contract):
+    name = FD + '.read_nonblocking'
+    props = ('C05', 'C06', 'C07', 'C11')
+    standin = False
+
+    def shape(self, b):
+        sp, kind = read_shape(b, FD)
+        h = b.ctx.heap[sp.oid] if hasattr(b, 'ctx') else None
+        if h is not None:
+            h.fields['use_poll'] = b.bool('use_poll')
+            h.fields['timeout'] = b.opt('self.timeout', lambda: b.real('self.timeout'))
+        return dict(self=sp, size=b.int('size'), timeout=timeout_arg(b))
+
+    def requires(self, v):
+        t = v.a.timeout
+        out = env_requires(v) + [('size-positive', v.a.size >= 1)]
+        if t is not None and not (isinstance(t, int) or (is_sym(t) and str(t.sort()) == 'Int')):
+            out.append(('timeout-domain', t >= 0))
+        if v.a.self.timeout is not None:
+            out.append(('instance-timeout-domain', v.a.self.timeout >= 0))
+        return out
+
+    def outcomes(self, v):
+        k = 'b' if v.old.self.encoding is None else 's'
+        return [Ret(TStr(k), 'data'), Raises('EOF'), Raises('TIMEOUT'), Raises('OSError')]
+
+    def exits(self, v):
+        return ('EOF', 'TIMEOUT', 'OSError', 'InterruptedError')
+
+    def ensures(self, v):
+        return read_common_post(v, v.old.self) + deadline_post(v, eff_timeout(v))
 
 
 def register(reg):
@@ -536,7 +605,10 @@ def register(reg):
     reg.add(PollIgnoreInterrupts)
     reg.add(FdReadBase)
     reg.add(PtyRead)
+    reg.add(FdRead)
     reg.add_extern('os.read', OsReadEnv)
+
+
 
 
 
